@@ -48,7 +48,7 @@ LIMITS = ('expansions that mix real and complex coefficient arrays in one sum, p
 TOL = 1e-10
 ENVKEY = 'VMON_TAYLOR_LMAX'
 LMAXES = (2, 3, 4, 5, 6)
-PROBE_MIXED_DTYPE = False   # real + complex operands: raises on the unchanged tree (reported as a finding)
+PROBE_MIXED_DTYPE = True   # real + complex operands: raises on the unchanged tree (reported as a finding)
 
 
 def cases(tier, seed):
